@@ -3,6 +3,7 @@ package main
 import (
 	"go/constant"
 	"go/token"
+	"go/types"
 
 	"golang.org/x/tools/go/ssa"
 )
@@ -69,54 +70,104 @@ func r14_2(c *Ctx) {
 		// or "setting" (anything else, field-level stores included). An input that is rejected must leave the
 		// value unset: every path to a return that may carry an error passes an unsetting store, and no
 		// setting store lies between the last unsetting store and that return.
-		var unsetting, setting []*ssa.Store
+		// The test is made per field of the receiver's struct: a field-wise reset (`i.value, i.set = "", false`)
+		// is the same reset as `*i = messageField{}`.
+		type rstore struct {
+			st    *ssa.Store
+			field int // -1: the whole value; -2: something deeper (counts for every field)
+			zero  bool
+		}
+		var stores []rstore
 		eachInstrDeep(fn, func(in ssa.Instruction) {
 			st, ok := in.(*ssa.Store)
 			if !ok || rootAddr(st.Addr) != ssa.Value(recv) {
 				return
 			}
-			if st.Addr == ssa.Value(recv) && (isZeroConst(st.Val) || isCtorResult0(P, st.Val)) {
-				unsetting = append(unsetting, st)
-				return
-			}
-			setting = append(setting, st)
-		})
-		isUnsetting := func(in ssa.Instruction) bool {
-			for _, u := range unsetting {
-				if in == ssa.Instruction(u) {
-					return true
+			switch a := st.Addr.(type) {
+			case *ssa.FieldAddr:
+				if a.X == ssa.Value(recv) {
+					stores = append(stores, rstore{st, a.Field, isZeroConst(st.Val)})
+					return
 				}
 			}
-			return false
+			if st.Addr == ssa.Value(recv) {
+				stores = append(stores, rstore{st, -1, isZeroConst(st.Val) || isCtorResult0(P, st.Val)})
+				return
+			}
+			stores = append(stores, rstore{st, -2, false})
+		})
+		nfields := 1
+		if pt, ok := recv.Type().Underlying().(*types.Pointer); ok {
+			if stt, ok := pt.Elem().Underlying().(*types.Struct); ok && stt.NumFields() > 0 {
+				nfields = stt.NumFields()
+			}
 		}
-		if len(unsetting) == 0 {
+		anyUnset := false
+		for _, r := range stores {
+			if r.zero {
+				anyUnset = true
+			}
+		}
+		if !anyUnset {
 			c.bad(name+":zero-first", P.pos(fn.Pos()), "the decoder never resets the receiver to the unset value: an invalid input leaves the previous value in place")
 			continue
 		}
 		zeroOK, storeOK := true, true
-		for _, ret := range returnsOf(fn) {
-			isErr := false
-			for _, s := range sources(ret.Results[0]) {
-				if !isNilConst(s) {
-					isErr = true
+		zeroBad, storeBad := map[ssa.Instruction]bool{}, map[ssa.Instruction]bool{}
+		var firstUnset ssa.Instruction
+		for k := 0; k < nfields; k++ {
+			var unsetting, setting []*ssa.Store
+			for _, r := range stores {
+				if r.field != -1 && r.field != -2 && r.field != k {
+					continue
+				}
+				if r.zero {
+					unsetting = append(unsetting, r.st)
+				} else {
+					setting = append(setting, r.st)
 				}
 			}
-			if !isErr {
-				continue
+			if len(unsetting) > 0 && firstUnset == nil {
+				firstUnset = unsetting[0]
 			}
-			if reachesAvoiding(entryPoint(fn), ret, isUnsetting, nil) {
-				zeroOK = false
-				c.bad(name+":zero-first", P.ipos(ret), "an error return is reachable without the receiver having been reset to the unset value: an invalid input leaves the previous value in place")
+			isUnsetting := func(in ssa.Instruction) bool {
+				for _, u := range unsetting {
+					if in == ssa.Instruction(u) {
+						return true
+					}
+				}
+				return false
 			}
-			for _, st := range setting {
-				if reachesAvoiding(afterInstr(st), ret, isUnsetting, nil) {
-					storeOK = false
-					c.bad(name+":store-before-error", P.ipos(st), "the receiver is written on a path that ends in an error return ("+P.ipos(ret)+"): an invalid input does not leave the value unset")
+			for _, ret := range returnsOf(fn) {
+				isErr := false
+				for _, s := range sources(ret.Results[0]) {
+					if !isNilConst(s) {
+						isErr = true
+					}
+				}
+				if !isErr {
+					continue
+				}
+				if reachesAvoiding(entryPoint(fn), ret, isUnsetting, nil) {
+					zeroOK = false
+					if !zeroBad[ret] {
+						zeroBad[ret] = true
+						c.bad(name+":zero-first", P.ipos(ret), "an error return is reachable without the receiver having been reset to the unset value: an invalid input leaves the previous value in place")
+					}
+				}
+				for _, st := range setting {
+					if reachesAvoiding(afterInstr(st), ret, isUnsetting, nil) {
+						storeOK = false
+						if !storeBad[st] {
+							storeBad[st] = true
+							c.bad(name+":store-before-error", P.ipos(st), "the receiver is written on a path that ends in an error return ("+P.ipos(ret)+"): an invalid input does not leave the value unset")
+						}
+					}
 				}
 			}
 		}
 		if zeroOK {
-			c.ok(name+":zero-first", P.ipos(unsetting[0]), "every error return is preceded by a reset of the receiver (zero value or the constructor's result)")
+			c.ok(name+":zero-first", P.ipos(firstUnset), "every error return is preceded by a reset of the receiver (zero value, field by field or as a whole, or the constructor's result)")
 		}
 		if storeOK {
 			c.ok(name+":store-before-error", P.pos(fn.Pos()), "no setting store into the receiver lies on a path to an error return")
@@ -339,7 +390,52 @@ func r14_4(c *Ctx) {
 				good = true
 			}
 		}
-		c.check(good && len(returnsOf(isl)) == 1, "isSingleLine", P.pos(isl.Pos()), "isSingleLine(p) = NewlineIndex(p).length == 0", "isSingleLine is not NewlineIndex(p).length == 0")
+		good = good && len(returnsOf(isl)) == 1
+		if !good {
+			// any other spelling (`if length != 0 { return false }; return true`): decided by evaluating the
+			// function for each value the length can take (0: no line break, 1: LF or CR, 2: CRLF)
+			var lens []ssa.Value
+			calls := 0
+			eachInstr(isl, func(in ssa.Instruction) {
+				if call, ok := in.(*ssa.Call); ok {
+					if _, isNI := isModCall(call, "parser.NewlineIndex"); isNI {
+						calls++
+						if len(call.Call.Args) == 1 && call.Call.Args[0] == ssa.Value(isl.Params[0]) {
+							for _, ref := range *call.Referrers() {
+								if e, ok := ref.(*ssa.Extract); ok && e.Index == 1 {
+									lens = append(lens, e)
+								}
+							}
+						}
+					}
+				}
+			})
+			if calls == 1 && len(lens) > 0 {
+				good = true
+				for k := int64(0); k <= 2 && good; k++ {
+					seed := map[ssa.Value]constant.Value{}
+					for _, l := range lens {
+						seed[l] = constant.MakeInt64(k)
+					}
+					res := sccp(isl, seed, nil, nil)
+					if len(res.Exit) == 0 {
+						good = false
+					}
+					for ret := range res.Exit {
+						var l lat
+						if cv, ok := ret.Results[0].(*ssa.Const); ok && cv.Value != nil {
+							l = latConst(cv.Value)
+						} else {
+							l = res.Vals[ret.Results[0]]
+						}
+						if l.kind != 1 || l.val.Kind() != constant.Bool || constant.BoolVal(l.val) != (k == 0) {
+							good = false
+						}
+					}
+				}
+			}
+		}
+		c.check(good, "isSingleLine", P.pos(isl.Pos()), "isSingleLine(p) = NewlineIndex(p).length == 0", "isSingleLine is not NewlineIndex(p).length == 0")
 	}
 }
 
